@@ -136,6 +136,9 @@ impl<T> Window<T> {
 	pub fn push(&mut self, value: T) -> T {
 		debug_assert!(!self.is_empty(), "Trying to use an empty window");
 
+		#[cfg(yata_verif)]
+		crate::verif::bounds("Window::push", self.index as usize, self.buf.len());
+
 		let refer = if cfg!(feature = "unsafe_performance") {
 			unsafe { self.buf.get_unchecked_mut(self.index as usize) }
 		} else {
@@ -226,6 +229,9 @@ impl<T> Window<T> {
 	pub fn newest(&self) -> &T {
 		let index = self.index.checked_sub(1).unwrap_or(self.s_1);
 
+		#[cfg(yata_verif)]
+		crate::verif::bounds("Window::newest", index as usize, self.buf.len());
+
 		if cfg!(feature = "unsafe_performance") {
 			unsafe { self.buf.get_unchecked(index as usize) }
 		} else {
@@ -237,6 +243,9 @@ impl<T> Window<T> {
 	#[inline]
 	#[must_use]
 	pub fn oldest(&self) -> &T {
+		#[cfg(yata_verif)]
+		crate::verif::bounds("Window::oldest", self.index as usize, self.buf.len());
+
 		if cfg!(feature = "unsafe_performance") {
 			unsafe { self.buf.get_unchecked(self.index as usize) }
 		} else {
@@ -307,6 +316,9 @@ impl<T> std::ops::Index<PeriodType> for Window<T> {
 		let buf_index = self
 			.slice_index(index)
 			.unwrap_or_else(|| panic!("Window index {index} is out of range")) as usize;
+
+		#[cfg(yata_verif)]
+		crate::verif::bounds("Window::index", buf_index, self.buf.len());
 
 		if cfg!(feature = "unsafe_performance") {
 			unsafe { self.buf.get_unchecked(buf_index) }
@@ -380,6 +392,9 @@ impl<'a, T> Iterator for WindowIterator<'a, T> {
 		let at_start = (self.index == 0) as PeriodType;
 		self.index = self.index.saturating_sub(1) + at_start * self.window.s_1;
 
+		#[cfg(yata_verif)]
+		crate::verif::bounds("WindowIterator::next", self.index as usize, self.window.buf.len());
+
 		let value = if cfg!(feature = "unsafe_performance") {
 			unsafe { self.window.buf.get_unchecked(self.index as usize) }
 		} else {
@@ -435,6 +450,9 @@ impl<'a, T> Iterator for ReversedWindowIterator<'a, T> {
 		if self.size == 0 {
 			return None;
 		}
+
+		#[cfg(yata_verif)]
+		crate::verif::bounds("WindowIterator::next", self.index as usize, self.window.buf.len());
 
 		let value = if cfg!(feature = "unsafe_performance") {
 			unsafe { self.window.buf.get_unchecked(self.index as usize) }
